@@ -65,12 +65,12 @@ TEXTS = {
   level_text=("An independent decoder written from README/dissector (std-lib CFB + CRC32-IEEE / GCM, own segment parser, own klauspost RS encode) reads EVERY datagram handed to the PacketConn in generated session histories: "
               "integrity verifies, layout parses with nothing left over, the byte stream reassembled from PUSH segments alone equals what was written, retransmissions carry identical payload, FEC type matches id position, ids follow +1 (or +p+1 after a skipped parity block) modulo the wrap value, OOB uses 0xffffffff and consumes none, "
               "parity equals RS over the zero-padded size-prefixed payloads, all datagrams and all nonces pairwise distinct (library entropy in half the cases, seeded in the rest)."),
-  level_note=E2 + ". Entropy generators are not separately drawn 2^20 times (DESIGN 5/C09 planned it); distinctness is checked over the nonces actually emitted.",
+  level_note=E2 + ". TestC09Entropy draws 2^18 (quick) / 2^22 (thorough) 16-byte values from each entropy source and requires them distinct.",
   rule="Non-trivial = the history contains a retransmission on the wire, a multi-segment datagram and (with FEC) a parity packet."),
  "C10": dict(
   level_text=("MTU values from the whole int range (negative, 0, 24/25, 1499..1501, 1524/1525, 65535/65536, 2^31, MaxInt) applied to a raw core before and during generated lossy traffic, growing and shrinking, with data queued and in flight. "
-              "Oracle: every output callback has 0 < size <= last ACCEPTED mtu; no panic; the transfer still completes (C02 bound). Session-level MTU is covered by the wire observer's per-datagram size check in C19 (max-size OOB, parity, all ciphers) and C09."),
-  level_note=E1 + ". Message sizes are drawn for the smallest MTU the sender will have (KCP's documented limit: a message must fit the peer's window).",
+              "Oracle: every output callback has 0 < size <= last ACCEPTED mtu; no panic; the transfer still completes (C02 bound). TestC10Session: UDPSession.SetMtu(any int) before and during generated lossy traffic for every cipher/FEC layout; every datagram at the PacketConn (data, parity, OOB) <= the last accepted MTU (default 1400, cap 1500); values below the layout's minimum must be refused; transfer completes."),
+  level_note=E1 + ". Message sizes are drawn for the smallest MTU the sender will have (KCP's documented limit: a message must fit the peer's window). Session runs use stream mode. Known finding C10:parity-of-group-straddling-mtu-shrink excluded (at most parityShards packets per shrink) and reproduced separately.",
   rule="Non-trivial = MTU changed while >=1 segment was queued or in flight, or within 2 of a boundary, or raw MTU > 1500."),
  "C11": dict(
   level_text=("1-8 clients (some sharing an IP) on one listener, each with its own fault script and an (address, conv)-keyed payload stream; reconnects from the same address with a new conv; late Accept; injected foreign datagrams: replays of genuine datagrams from a never-seen address, random bytes from strangers and (with a cipher) from known addresses, "
@@ -110,7 +110,7 @@ TEXTS = {
  "C18": dict(
   level_text=("Clean path: generated constant one-way delay D and intervals with 2D + peer ack delay < minimum RTO, windows satisfying the precondition, both drives, write patterns up to 2 MB: every data sn appears on the wire exactly once and the four retransmission counters do not move. "
               "RTO bound: hostile ACK streams with forged timestamps (0, future, now-2^31+-, random) and clocks near the wrap: after every operation minrto <= rx_rto <= 60000."),
-  level_note=E1 + ". minrto is the value configured before traffic. GetRTO() is a locked read of the same field.",
+  level_note=E1 + ". minrto is the value configured before traffic. TestC18SessionRTO checks GetRTO() of dialled sessions at every read of generated lossy transfers, with the clock near its wrap points.",
   rule="Clean-path non-trivial = the send window was filled at least once and >=3 segments were sent; bound cases = >=1 sample moved rx_rto."),
  "C19": dict(
   level_text=("FEC sessions of every cipher/MTU: SendOOB with lengths {0,1,6,7,100,max-1,max,max+1,max+100}, bursts up to 3000 calls against the 2048-deep queue, handlers on both/one/neither side, replaced or cleared mid-run, interleaved with generated lossy stream traffic. "
